@@ -298,7 +298,12 @@ class Decompose(Stream):
         res = nt.decompose_duration()
         notes = res.notes if hasattr(res, "notes") else [res]
         mel = Melody([Note("s", 0, 0, 1), nt, Note("s", 1, 0, F(1, 2))]).decompose_duration()
-        return {"durs": [F(x.duration) for x in notes], "types": [x.type for x in notes],
+        # zero-length elements (the table's .n) are elements too: each keeps its onset
+        from musiclang import Silence
+        src = Melody([Note("s", 0, 0, 1), Note("s", 4, 0, 0), nt, Silence(0), Note("s", 1, 0, F(1, 2)), Note("s", 2, 0, 0)])
+        dz = src.decompose_duration()
+        heads = lambda m: [[x.type, int(x.val), F(t)] for x, t in zip(m.notes, m.get_onset_times()) if x.type != "l"]
+        return {"zero_heads": [heads(src), heads(dz)], "durs": [F(x.duration) for x in notes], "types": [x.type for x in notes],
                 "first": [notes[0].type, notes[0].val, notes[0].octave], "stored": F(nt.duration),
                 "melody_total": F(mel.duration), "melody_onset_last": F(mel.get_onset_times()[-1]),
                 "all_table": all(F(x.duration) in set(SPEC_TABLE.values()) for x in notes)}
@@ -318,6 +323,8 @@ class Decompose(Stream):
             return {"sig": "decompose-not-note-then-continuations", "msg": str(r["types"])}
         if r["melody_total"] != 1 + d + F(1, 2) or r["melody_onset_last"] != 1 + d:
             return {"sig": "decompose-moves-onsets", "msg": f"{r['melody_total']} {r['melody_onset_last']}"}
+        if r["zero_heads"][0] != r["zero_heads"][1]:
+            return {"sig": "decompose-moves-onsets:zero-length-elements", "msg": f"{r['zero_heads'][0]} became {r['zero_heads'][1]}"}
         return None
 
     def nontrivial(self, case, r):
